@@ -64,8 +64,10 @@ class VLoop(asyncio.SelectorEventLoop):
         self._vclock = clock
         self._origin_ns = origin_ns
         self._selector = _NoBlockSelector(self._selector)
-        # asyncio fires timers whose when < time() + resolution; make the comparison exact on our grid
-        self._clock_resolution = 1e-9
+        # asyncio fires timers whose when < time() + resolution.  Timer times are float seconds (a few ns of
+        # rounding after simulated months), real clocks move on, the virtual clock does not: 1 microsecond of
+        # resolution absorbs the rounding; the harnesses keep instants at least 100 microseconds apart
+        self._clock_resolution = 1e-6
 
     def time(self) -> float:
         return (self._vclock.ns - self._origin_ns) / 1e9
@@ -77,7 +79,7 @@ class VLoop(asyncio.SelectorEventLoop):
         if self._ready:
             return True
         sched = [h for h in self._scheduled if not h._cancelled]
-        return any(h._when <= self.time() for h in sched)
+        return any(h._when < self.time() + self._clock_resolution for h in sched)
 
 
 async def drain(loop: VLoop, limit: int = 10_000) -> int:
